@@ -11,9 +11,11 @@ class Layout:
         self.pos = pos        # token index -> (file, line, col); for '#pragma' lines: position of the word 'pragma'
         self.strpos = strpos  # directive token index -> (file, line, col) of the pragma text (or None)
         self.filename = filename
-        self.index = {}
+        self.index = {}   # (file, line, col) -> [token indexes] (linemarkers can make positions collide)
         for i, p in enumerate(pos):
-            self.index.setdefault(p, i)
+            self.index.setdefault(p, []).append(i)
+        for i, p in strpos.items():
+            self.index.setdefault(p, []).append(i)
 
 
 def layout(toks, directive, style, rnd, filename="f.c", marker_p=0.12):
